@@ -33,6 +33,16 @@ binding:   (a) spec -> code: every CASE x k concretizations is fed to the real p
            documents must not change the first one's dump.  In the trace leg every document is
            re-dumped after the next document was parsed and a sibling parse was edited; that output
            is one more element of `outs`, judged by TLC.
+           (d) size dimension (notes/SIZE_STRESS.md): the abstract cases are unchanged; every 4th
+           (thorough: 2nd) CASE gets one more concretization whose segment lengths hit boundary
+           values (names up to 300, whitespace runs up to 4097, values / comments / garbage lines up
+           to 8193 and occasionally 64 KiB) -- the expected text is still the CASE's `out` sequence,
+           which does not depend on lengths.  The trace leg records size-stressed documents (long
+           lines; runs of 10..1000 blank / comment / error lines; paragraphs of 10..1000 fields;
+           values of 10..1000 continuation lines; documents of 100 / 1000 / 10000 lines) in the
+           abstract trace form (per line: length, checksums, termination, classes; outputs as
+           length+checksum blobs cut at newlines), so TLC still decides the verdict without
+           scanning the text.
 verdict observables:   parse_deb822_file(lines, accept_files_with_error_tokens=True,
            accept_files_with_duplicated_fields=True) returns; dump() == expected;
            "".join(t.text for t in tokenize_deb822_file(lines)) == expected.
@@ -51,7 +61,7 @@ from lts import LTS, skey
 
 MANIFEST = dict(
     technique="TLA+ spec (ReproTokenizer: line-class automaton of the tokenizer + element-builder automaton, segment identities) model-checked by TLC; every bounded document replayed into parse_deb822_file/tokenize_deb822_file with several concretizations; recorded parses of random documents validated by TLC (TraceReproTokenizer)",
-    text="TLC checks totality and determinism of the tokenizer automaton on the closed control-state space (documents of any length) and, for every document of up to 3 lines over 11 line classes and 4 lines over 6 classes (quick; thorough: 5 lines over 11 classes, 6 lines over 6 classes) x termination x the two input modes, that every input segment lands in exactly one token in order (Lossless), that tokens obey the constructor rule (TokenShape) and that the element builders only group tokens (PartsLossless). Each of these documents is concretized several times (odd Unicode whitespace, duplicate and case-variant field names, values with ':' '#' '-', non-ASCII, garbage lines) and fed to the real parser: dump() and the joined token texts must equal the expected text carried by the TLC case. The property is also checked process-wide (ReproTokenizerShared: unmodified documents stay lossless whatever was parsed or edited before, the caller's list is untouched): earlier results are kept alive and re-dumped, inputs are parsed repeatedly and in iterator form, and results are edited through the public API between parses. In the other direction random documents of up to 40 lines (walks through the emitted LTS, raw random text, mixtures) are parsed by the real code and TLC validates the recorded outputs against the identity, deciding itself from the code points whether the document is in the domain.",
+    text="TLC checks totality and determinism of the tokenizer automaton on the closed control-state space (documents of any length) and, for every document of up to 3 lines over 11 line classes and 4 lines over 6 classes (quick; thorough: 5 lines over 11 classes, 6 lines over 6 classes) x termination x the two input modes, that every input segment lands in exactly one token in order (Lossless), that tokens obey the constructor rule (TokenShape) and that the element builders only group tokens (PartsLossless). Each of these documents is concretized several times (odd Unicode whitespace, duplicate and case-variant field names, values with ':' '#' '-', non-ASCII, garbage lines) and fed to the real parser: dump() and the joined token texts must equal the expected text carried by the TLC case. The property is also checked process-wide (ReproTokenizerShared: unmodified documents stay lossless whatever was parsed or edited before, the caller's list is untouched): earlier results are kept alive and re-dumped, inputs are parsed repeatedly and in iterator form, and results are edited through the public API between parses. Payload sizes are stressed in both legs (segment lengths at boundary values up to 64 KiB in the replay leg; long-line documents, runs of up to 1000 blank/comment/error lines, 1000-field paragraphs, 1000-line values and 10000-line documents in the trace leg, validated by TLC on a length-abstracted trace form). In the other direction random documents of up to 40 lines (walks through the emitted LTS, raw random text, mixtures) are parsed by the real code and TLC validates the recorded outputs against the identity, deciding itself from the code points whether the document is in the domain.",
     note="Small-scope: bounded configurations stop at 4/6 lines (the longest ones over a reduced class alphabet; thorough replays documents of <= 4 lines over 11 classes and 5 lines over 8 classes); payload characters are sampled, not enumerated. Field-name equality (duplicate fields) is a payload dimension sampled by the concretizer, not modelled. Token kinds and part lists are diagnostic (spec_drift), only parse success and the two identities give a verdict. Lines may contain any code point except newline (incl. other str.splitlines boundaries); an empty unterminated last line and mixed termination are outside the domain (executed, any outcome accepted). Trusted: TLC, the concretizer, the projection (dump(), token texts); the independent line classifier only feeds diagnostics. Corrupted control traces must be rejected in every run.",
     design="5 (C01)")
 
@@ -179,6 +189,8 @@ class Names:
         if style == "canonical":
             self.pool = None
         else:
+            if style == "big":
+                self.style = "ascii"
             k = rng.choice([1, 2, 2, 3, 6])
             self.pool = [self.fresh() for _ in range(k)]
             self.dups = rng.random() < 0.6
@@ -201,7 +213,64 @@ class Names:
         return self.rng.choice([w, w, w.lower(), w.upper(), w.swapcase()])
 
 
+# ---- size dimension (notes/SIZE_STRESS.md): the abstract case is unchanged, payload lengths and
+# repeat counts hit boundary neighbourhoods
+EDGES = [1, 2, 7, 8, 9, 15, 16, 17, 31, 32, 33, 63, 64, 65, 71, 72, 73, 79, 80, 81, 127, 128, 129, 255, 256, 257,
+         1023, 1024, 1025, 4095, 4096, 4097, 8191, 8192, 8193]
+HUGE = [65535, 65536, 65537]
+COUNTS = [9, 10, 11, 16, 17, 31, 32, 33, 99, 100, 101, 255, 256, 257]
+
+
+def big_len(rng, cap, huge=False):
+    """heavy-tailed length that regularly hits a boundary value <= cap"""
+    r = rng.random()
+    if r < 0.35:
+        return rng.randint(1, 9)
+    if huge and r > 0.97:
+        return rng.choice(HUGE)
+    return rng.choice([e for e in EDGES if e <= cap])
+
+
+def stretch(rng, n, first=None, last=None):
+    """n characters without newline; first/last (if given) are kept as they are"""
+    fill = rng.choice(["x", "ab ", "\xe9", "0123456789", ": # - ,", "\u4e2d\t"])
+    body = (fill * (n // len(fill) + 1))[:max(n - len(first or "") - len(last or ""), 0)]
+    return (first or "") + body + (last or "")
+
+
+def big_seg_text(rng, seg, names):
+    if seg == "nl":
+        return "\n"
+    if seg == "colon":
+        return ":"
+    if seg in ("ws", "pre", "post", "sp"):
+        n = big_len(rng, 4097)
+        c = rng.choice([" ", " ", "\t", " \t", "\xa0 "])
+        return (c * n)[:n]
+    if seg == "lead":
+        return rng.choice(WS_PLAIN)
+    if seg == "name":
+        n = big_len(rng, 300)
+        if n > 257:
+            n = rng.choice([299, 300])
+        base = names.next()
+        return base if len(base) >= n else base + stretch(rng, n - len(base)).replace(" ", "-").replace(":", "_") \
+            .replace("\t", "+").replace("\xe9", "e").replace("\u4e2d", "z").replace("#", "h").replace(",", ".")
+    n = big_len(rng, 8193, huge=True)
+    if seg == "cmt":
+        return stretch(rng, n, first="#")
+    if seg == "junk":
+        return stretch(rng, n, first=rng.choice(["-", "\xe9", "junk "]), last="!")
+    if seg == "body":
+        return stretch(rng, n, first=rng.choice(["", " ", "."]), last="$") if n > 1 else "$"
+    if seg == "value":
+        return stretch(rng, n, first=rng.choice(["v", ":", "#", "-"]), last="$") if n > 1 else "v"
+    raise core.MachineryError("unknown segment kind %r" % (seg,))
+
+
 def seg_text(rng, seg, style, names):
+    if style == "big":
+        return big_seg_text(rng, seg, names)
     if seg == "nl":
         return "\n"
     if seg in ("ws", "pre", "post", "sp"):
@@ -433,7 +502,7 @@ def shared_scenario(lines, expected, other, mseed, stats=None):
     rng = random.Random(mseed)
     L = list(lines)
     snap = list(L)
-    where = "input %r, expected %r" % (snap, expected)
+    where = "input %s, expected %s" % (short(snap, 800), short(expected, 500))
     try:
         # (4) the same line sequence as iterator / generator / the same list object twice; the
         # caller's list must come back untouched (InputUntouched)
@@ -547,12 +616,12 @@ def run_case(ctx, case, conc, with_bytes=False, keep=None):
         keep.append(obs.get("file"))
     msg = verdict(obs, expected)
     if msg:
-        return "%s; input %r (mode %s), expected %r" % (msg, lines, case["m"], expected), lines, expected
+        return "%s; input %s (mode %s), expected %s" % (short(msg, 900), short(lines, 900), case["m"], short(expected, 600)), lines, expected
     if ctx is not None:
         if obs["kinds"] != case["k"]:
-            ctx.drift("token kinds of %r: real %s, model %s" % (lines, kinds_str(obs["kinds"]), kinds_str(case["k"])))
+            ctx.drift("token kinds of %s: real %s, model %s" % (short(lines), kinds_str(obs["kinds"]), kinds_str(case["k"])))
         elif obs["parts"] != case["p"]:
-            ctx.drift("part list of %r: real %s, model %s" % (lines, parts_str(obs["parts"]), parts_str(case["p"])))
+            ctx.drift("part list of %s: real %s, model %s" % (short(lines), parts_str(obs["parts"]), parts_str(case["p"])))
         if with_bytes:
             ok = True
             try:
@@ -562,8 +631,13 @@ def run_case(ctx, case, conc, with_bytes=False, keep=None):
             if ok:
                 b = observe_bytes(lines)
                 if b != expected:
-                    ctx.drift("bytes input form of %r gives %r" % (lines, b))
+                    ctx.drift("bytes input form of %s gives %s" % (short(lines), short(b)))
     return None, lines, expected
+
+
+def short(x, n=400):
+    r = x if isinstance(x, str) else repr(x)
+    return r if len(r) <= n else r[:n // 2] + " ...[%d chars]... " % len(r) + r[-n // 4:]
 
 
 def kinds_str(ks):
@@ -607,17 +681,22 @@ def replay_history(history):
     return alive
 
 
-def replay_cases(ctx, cases, styles, index, shared_every, stats, bytes_every=7):
+def replay_cases(ctx, cases, styles, index, shared_every, stats, bytes_every=7, big_every=4):
     """styles: concretization styles per case (the first one is the canonical minimal form);
-    shared_every: every n-th case also runs the shared-state scenario (1 = all)"""
+    shared_every: every n-th case also runs the shared-state scenario (1 = all);
+    big_every: every n-th case gets one more, size-stressed concretization (boundary lengths)"""
     from collections import deque
     rng = ctx.rng
     n = 0
     prev = None          # (file, lines, expected) of the previous concretization, kept alive
     history = deque(maxlen=4)     # the last harness events, recorded with every violation
     for idx, case in enumerate(cases):
-        for j, style in enumerate(styles):
+        for j, style in enumerate(styles + ["big"] if idx % big_every == 1 % big_every else styles):
             conc = concretize_case(rng, case, style)
+            if style == "big":
+                stats["size_stressed_concretizations"] = stats.get("size_stressed_concretizations", 0) + 1
+                stats["longest_line_replayed"] = max(stats.get("longest_line_replayed", 0),
+                                                     max([len(v) for v in conc.values()] or [0]))
             keep = []
             msg, lines, expected = run_case(ctx, case, conc, with_bytes=((idx + j) % bytes_every == 0), keep=keep)
             n += 1
@@ -628,6 +707,7 @@ def replay_cases(ctx, cases, styles, index, shared_every, stats, bytes_every=7):
                 break
             if prev is not None:
                 msg = prev_check(prev, lines)
+                msg = short(msg, 2500) if msg else msg
                 stats["previous_document_rechecked"] = stats.get("previous_document_rechecked", 0) + 1
                 if msg:
                     ctx.violation({"kind": "prev", "case": case, "conc": conc, "history": list(history)}, msg)
@@ -649,6 +729,7 @@ def replay_cases(ctx, cases, styles, index, shared_every, stats, bytes_every=7):
                 other = case_texts(pc, conc) if pc is not None else None
                 mseed = rng.randrange(1 << 30)
                 msg = shared_scenario(lines, expected, other, mseed, stats)
+                msg = short(msg, 2500) if msg else msg
                 stats["shared_state_scenarios"] = stats.get("shared_state_scenarios", 0) + 1
                 hist = list(history)
                 history.append({"ev": "shared", "case": case, "conc": conc, "other_case": pc, "mseed": mseed})
@@ -745,6 +826,78 @@ class DocGen:
             return rng.choice([["A: b\n", ""], [""], ["\n", ""]]), None
         return ["A: b\nC: d\n", "\n"], None   # a newline inside a line
 
+    # ---- size-stressed documents (notes/SIZE_STRESS.md): same class grammar, large counts / lengths
+    def from_classes(self, classes, mode, style, last_unterminated=False, dups=None):
+        names = Names(self.rng, style)
+        if dups is not None and names.pool is not None:
+            names.dups = dups
+        lines = []
+        for i, c in enumerate(classes):
+            nl = mode == "T" and not (last_unterminated and i == len(classes) - 1 and c != "E")
+            lines.append(self.line_from_class(c, nl, style, names))
+        return lines
+
+    def count(self, big=False):
+        rng = self.rng
+        if big:
+            return rng.choice([999, 1000, 1001, 1024, 1025])
+        return rng.choice(COUNTS)
+
+    def big_docs(self, quick):
+        """(label, lines) -- a handful per run in quick, more in thorough"""
+        rng = self.rng
+        F = ["F1", "F1b", "F1a", "F1ba", "F0", "F0s"]
+        out = []
+
+        def mode():
+            return "N" if rng.random() < 0.3 else "T"
+
+        def small_style():
+            return rng.choice(["ascii", "wild"])
+        # long lines: every class, boundary lengths up to 64 KiB
+        for _ in range(5 if quick else 40):
+            cl = [rng.choice(self.classes) for _ in range(rng.randint(2, 9))]
+            out.append(("long lines", self.from_classes(cl, mode(), "big", rng.random() < 0.3)))
+        # runs of blank / comment / error lines between fields
+        for kind, pool in (("blank", ["E", "W", "E"]), ("comment", ["H"]), ("error", ["X", "X", "C"])):
+            for big in ([False, True] if quick else [False, False, False, True, True]):
+                n = self.count(big)
+                run = [rng.choice(pool) for _ in range(n)]
+                if kind == "error":
+                    head = rng.choice([["E"], ["F1b", "E"], ["F1b"]])    # indented lines: stray or continuation
+                else:
+                    head = rng.choice([[], ["F1b"], ["F1b", "C"]])
+                tail = rng.choice([[], ["F1"], ["H", "F0", "C"]])
+                out.append(("run of %d %s lines" % (n, kind),
+                            self.from_classes(head + run + tail, mode(), small_style(), rng.random() < 0.3)))
+        # paragraphs with many fields (distinct names, and with duplicates / case variants)
+        for big in ([False, False, True] if quick else [False] * 6 + [True] * 3):
+            n = self.count(big)
+            cl = [rng.choice(F) for _ in range(n)]
+            out.append(("paragraph of %d fields" % n,
+                        self.from_classes(cl, mode(), rng.choice(["canonical", "ascii", "wild"]), rng.random() < 0.3,
+                                          dups=rng.random() < 0.5)))
+        # values with many continuation lines (some with comments inside)
+        for big in ([False, True] if quick else [False] * 4 + [True] * 2):
+            n = self.count(big)
+            cl = [rng.choice(["F0", "F1b"])] + [("H" if rng.random() < 0.05 else "C") for _ in range(n)] + ["F1"]
+            out.append(("value of %d continuation lines" % n, self.from_classes(cl, mode(), small_style())))
+        # long documents: walks through the LTS
+        for n in ([100, 1000, 10000] if quick else [100, 101, 257, 1000, 1000, 4097, 10000, 10000]):
+            m = "N" if rng.random() < 0.3 else "T"
+            init = {"mode": m, "n": 0, "ended": False, "fld": False, "wsOpen": False, "last": "brk", "pend": False}
+            path = self.g.walk(rng, skey(init), n - 1, weight=lambda e: 1.0 if (e["args"][1] or m == "N") else 0.0)
+            last = self.g.out[path[-1]["_t"]]
+            if m == "T":        # the last line with or without newline
+                want = rng.random() < 0.6
+                last = [e for e in last if bool(e["args"][1]) == want]
+            path.append(rng.choice(last))
+            style = small_style()
+            names = Names(rng, style)
+            out.append(("document of %d lines" % len(path),
+                        [self.line_from_class(e["args"][0], bool(e["args"][1]), style, names) for e in path]))
+        return out
+
     def doc(self, maxlen):
         rng = self.rng
         r = rng.random()
@@ -762,12 +915,47 @@ def cps(s):
     return [ord(c) for c in s]
 
 
+def chk(s):
+    """30-bit checksum of a text (abstract traces: the text itself never reaches TLC)"""
+    import zlib
+    return zlib.crc32(s.encode("utf-8", "surrogatepass")) & 0x3fffffff
+
+
+def pieces(o):
+    """an output cut after every newline, as [length, checksum] blobs"""
+    parts = o.split("\n")
+    ps = [p + "\n" for p in parts[:-1]] + ([parts[-1]] if parts[-1] else [])
+    return [[len(x), chk(x)] for x in ps]
+
+
+def is_big(lines):
+    return len(lines) > 60 or any(len(l) > 100 for l in lines)
+
+
 def make_trace(lines, obs):
+    if is_big(lines):
+        # size-stressed document: length + checksum per line, outputs as blobs (length-independent
+        # identity expectation, see the header of TraceReproTokenizer.tla)
+        diag = 1 if len(lines) <= 300 else 0
+        outs = []
+        for o in (obs["dump"], obs["tokjoin"], obs.get("later")):
+            if o is not None:
+                p = {"pieces": pieces(o)}
+                if p not in outs:
+                    outs.append(p)
+        ls = []
+        for l in lines:
+            nl = l.endswith("\n")
+            ls.append({"n": len(l), "h": chk(l), "hn": chk(l + "\n"), "nl": int(nl),
+                       "inner": int("\n" in (l[:-1] if nl else l)), "cls": classify(l) if diag else []})
+        return {"abs": 1, "diag": diag, "lines": ls,
+                "exc": "none" if obs["exc"] == "none" else obs["exc"].split(":")[1].strip(), "outs": outs,
+                "kinds": (obs["kinds"] or []) if diag else [], "parts": (obs["parts"] or []) if diag else []}
     outs = []
     for o in (obs["dump"], obs["tokjoin"], obs.get("later")):
         if o is not None and cps(o) not in outs:
             outs.append(cps(o))
-    return {"lines": [{"t": cps(l), "cls": classify(l)} for l in lines],
+    return {"abs": 0, "diag": 1, "lines": [{"t": cps(l), "cls": classify(l)} for l in lines],
             # only the exception type goes to TLC (messages may quote arbitrary input text)
             "exc": "none" if obs["exc"] == "none" else obs["exc"].split(":")[1].strip(), "outs": outs, "kinds": obs["kinds"] or [], "parts": obs["parts"] or []}
 
@@ -776,6 +964,22 @@ def corrupt(t, how):
     """control traces the trace module must NOT accept (in-domain documents only)"""
     import copy
     t = copy.deepcopy(t)
+    if t.get("abs"):
+        if t["exc"] != "none" or not t["outs"] or len(t["outs"][0]["pieces"]) < 2:
+            return None
+        ps = t["outs"][0]["pieces"]
+        if how == "drop":          # one line lost
+            del ps[len(ps) // 2]
+        elif how == "raise":
+            t["exc"] = "ValueError"
+            t["outs"] = []
+        elif how == "swap":        # one character of one line changed (same length)
+            ps[len(ps) // 2][1] = (ps[len(ps) // 2][1] + 1) % (1 << 30)
+        elif how == "nl":          # one character lost in one line
+            ps[0][0] += 1
+        elif how == "second":
+            t["outs"] = [t["outs"][0], {"pieces": ps[:-1]}]
+        return t
     if t["exc"] != "none" or not t["outs"] or len(t["outs"][0]) < 2:
         return None
     if how == "drop":          # one character lost
@@ -809,16 +1013,17 @@ def validate(ctx, docs, with_controls=True):
     traces = [make_trace(lines, obs) for lines, obs in docs]
     controls, kind_controls = [], []
     if with_controls:
-        for how in ("drop", "raise", "swap", "nl", "second"):
-            for (lines, _), t in zip(docs, traces):
-                if in_domain_py(lines):
-                    c = corrupt(t, how)
-                    if c:
-                        controls.append(c)
-                        break
+        for form in (0, 1):
+            for how in ("drop", "raise", "swap", "nl", "second"):
+                for (lines, _), t in zip(docs, traces):
+                    if t["abs"] == form and in_domain_py(lines):
+                        c = corrupt(t, how)
+                        if c:
+                            controls.append(c)
+                            break
         # diagnostic layer control: a wrong token kind must be noticed as drift
         for (lines, _), t in zip(docs, traces):
-            if in_domain_py(lines) and t["exc"] == "none" and len(t["kinds"]) >= 2:
+            if in_domain_py(lines) and t["exc"] == "none" and len(t["kinds"]) >= 2 and t["diag"]:
                 c = json.loads(json.dumps(t))
                 c["kinds"][-1] = (c["kinds"][-1] + 1) % 8
                 kind_controls.append(c)
@@ -864,9 +1069,16 @@ def record_and_validate(ctx, g, ndocs, maxlen, batch, stats):
     for start in range(0, ndocs, batch):
         docs = []
         ctxs = []
-        for _ in range(min(batch, ndocs - start)):
-            lines, genc = gen.doc(maxlen)
-            obs = observe(lines, keep=True)
+        todo = [gen.doc(maxlen) for _ in range(min(batch, ndocs - start))]
+        if start == 0:
+            bigs = gen.big_docs(ctx.tier == "quick")
+            todo += [(lines, None) for _, lines in bigs]
+            stats["size_stressed_documents"] = len(bigs)
+            stats["size_stressed_shapes"] = sorted({label.split(" of ")[0] for label, _ in bigs})
+            stats["longest_document_lines"] = max(len(l) for _, l in bigs)
+            stats["longest_line_recorded"] = max(max(len(x) for x in l) for _, l in bigs if l)
+        for lines, genc in todo:
+            obs = observe(lines, keep=True, diag=len(lines) <= 300)
             mseed = ctx.rng.randrange(1 << 30)
             sibling_edit(lines, mseed, stats)
             if docs:
@@ -881,22 +1093,25 @@ def record_and_validate(ctx, g, ndocs, maxlen, batch, stats):
             if genc is not None:
                 for l, c in zip(lines, genc):
                     if c not in classify(l):
-                        ctx.drift("classifier %r vs generator class %s for line %r" % (classify(l), c, l))
+                        ctx.drift("classifier %r vs generator class %s for line %s" % (classify(l), c, short(l)))
         bad, drift, prog = validate(ctx, docs)
         for i in bad:
             lines, obs = docs[i]
             total_bad += 1
             ctx.violation({"kind": "trace", "lines": lines, "mseed": ctxs[i]["mseed"], "next_lines": ctxs[i]["next_lines"]},
                           "recorded parse rejected by TraceReproTokenizer: the document is in the domain but the "
-                          "output is not the input (exception: %s; dump() = %r; token texts = %r; dump() again after "
-                          "the next document was parsed = %r); input %r"
-                          % (obs["exc"], obs["dump"], obs["tokjoin"], obs.get("later"), lines))
+                          "output is not the input (exception: %s; dump() = %s; token texts = %s; dump() again after "
+                          "the next document was parsed = %s); input %s"
+                          % (obs["exc"], short(obs["dump"]), short(obs["tokjoin"]), short(obs.get("later")),
+                             short(lines, 1200)))
         for i in drift:
             lines, obs = docs[i]
             ndrift += 1
-            ctx.drift("automaton explains only %d of %d lines of %r: real kinds %s, parts %s, classes %s"
-                      % (max(prog.get(i + 1, 0), 0), len(lines), lines, kinds_str(obs["kinds"]),
-                         parts_str(obs["parts"]), [classify(l) for l in lines]))
+            at = max(prog.get(i + 1, 0), 0)
+            ctx.drift("automaton explains only %d of %d lines of %s: line %d = %s classes %s; real kinds %s, parts %s"
+                      % (at, len(lines), short(lines), at, short(lines[at - 1]) if 0 < at <= len(lines) else "-",
+                         [classify(l) for l in lines[max(at - 2, 0):at + 1]], short(kinds_str(obs["kinds"])),
+                         short(parts_str(obs["parts"]))))
         if start == 0 and docs:
             for lines, obs in docs:
                 if 3 <= len(lines) <= 6 and obs["exc"] == "none":
@@ -1012,7 +1227,7 @@ def run(ctx):
                 by_len[len(c["ls"])] = by_len.get(len(c["ls"]), 0) + 1
             # shared-state scenario: every 2nd case (quick); every case, every 3rd 5-line case (thorough)
             every = 2 if quick else (3 if cases and len(cases[0]["ls"]) >= 5 else 1)
-            n_replayed += replay_cases(ctx, cases, styles, index, every, stats)
+            n_replayed += replay_cases(ctx, cases, styles, index, every, stats, big_every=4 if quick else 2)
             if len(ctx.violations) >= ctx.max_violation_files:
                 break
         ctx.extra["cases_by_length"] = {str(k): v for k, v in sorted(by_len.items())}
